@@ -97,8 +97,8 @@ REF_CMD = {'SubmitSm': 'submit_sm', 'DeliverSm': 'deliver_sm', 'SubmitSmResp': '
 # ---------------------------------------------------------------------------------------------------------
 # decoding direction: foreign PDUs from field values
 # ---------------------------------------------------------------------------------------------------------
-TEXTS = {'gsm0338': ['a', 'Hello €uro {x}', '@Δ_', 'x' * 100, 'y' * 153, 'z' * 254, 'w' * 300],
-         'ucs2': ['ы', 'мир 😀', 'a你', 'ж' * 67, 'ж' * 127, '😀' * 64, 'ж' * 200],
+TEXTS = {'gsm0338': ['', 'a', 'Hello €uro {x}', '@Δ_', 'x' * 100, 'y' * 153, 'z' * 254, 'w' * 300],
+         'ucs2': ['', 'ы', 'мир 😀', 'a你', 'ж' * 67, 'ж' * 127, '😀' * 64, 'ж' * 200],
          'ascii': ['plain ascii', 'q' * 254, '~`', 'r' * 300],
          'latin_1': ['café', 'ÿ' * 10, 'x' * 254, 'é' * 260]}
 CSTR = ['', 'abc', '38599123456', 'ALPHA', '1' * 20]
